@@ -14,6 +14,7 @@ import SerfProofs.Lemmas.Pipeline
 import SerfProofs.Lemmas.PipelineLast
 import SerfProofs.Lemmas.PipelineDrain
 import SerfModel.Gen.MemberLocks
+import SerfModel.Gen.NodeShapes
 import SerfProofs.Props.C17
 import SerfProofs.Props.C18
 namespace SerfProofs.C16
@@ -179,6 +180,30 @@ theorem C16_status_handlers_send_under_lock :
 example : SerfModel.MemberLocks.allSendsUnderLock
     [{ name := "handleNodeLeave", sends := 1, lockCall := "Lock", shape := "other", earlyUnlock := false,
        sendsInside := false, callSites := [] }] = false := by decide
+
+/-- **Order of the events one handler call emits.**  A leave intent with the Prune flag that finds
+the member `failed` makes two status changes in one call — failed→left, then erased — and so
+emits two events.  In the source's `case StatusFailed` the `EventMemberLeave` send comes BEFORE
+`s.handlePrune(member)` (whose last statement is `s.eraseNode(member)`, the sender of
+`EventMemberReap`), and nothing but `return true` follows: the emitted history is
+…, leave, reap — the order of the status changes, which is what the pipeline theorems take as
+their input (the harness emits exactly this history for the `prune` / `forceprune` ops). -/
+theorem C16_leave_is_sent_before_prune_reaps :
+    SerfModel.Gen.NodeShapes.leaveCaseFailed =
+      ["member.Status = StatusLeft",
+       "s.failedMembers = removeOldMember(s.failedMembers, member.Name)",
+       "s.leftMembers = append(s.leftMembers, member)",
+       -- (1) the leave of the failed→left change …
+       "if s.config.EventCh != nil { s.config.EventCh <- MemberEvent{Type: EventMemberLeave, Members: []Member{member.Member}} }",
+       -- (2) … then the prune, whose eraseNode sends the reap
+       "if leaveMsg.Prune { s.handlePrune(member) }",
+       "return true"] ∧
+    SerfModel.Gen.NodeShapes.handlePruneStmts.getLast? = some "s.eraseNode(member)" ∧
+    -- the other cases send nothing themselves: their only event is the reap of the prune
+    SerfModel.Gen.NodeShapes.leaveCaseAlive =
+      ["member.Status = StatusLeaving", "if leaveMsg.Prune { s.handlePrune(member) }", "return true"] ∧
+    SerfModel.Gen.NodeShapes.leaveCaseLeavingLeft = ["if leaveMsg.Prune { s.handlePrune(member) }", "return true"] :=
+  ⟨rfl, rfl, rfl, rfl⟩
 
 /-- The coalescer stages of the pipeline model are the source's: the member coalescer stores
 unconditionally and suppresses by the source's guard (C17 ties), and both coalescer stages run
